@@ -925,7 +925,7 @@ def _getNamespaceToClassesFromFullyQualifiedNames(classObj, setOfClasses, is_fil
             # If a class is in the same namespace...then it is in the same folder...so clean this first.
             f = StripOwnNamespace(f, classObj.NAMESPACE)
         full = f.split("::")
-        ns = f.replace(full[-1], "")
+        ns = f[:len(f) - len(full[-1])]  # the qualification in front of the last component (not: the class name removed anywhere)
         if is_file_include:  # when using this for include files, switch :: with /
             ns = ns.replace("::", "/")
         else:  # when using this for forward declarations, the extra '::' creates an empty namespace.
